@@ -174,7 +174,10 @@ func (ww *conversionVisitor) visitTopicNode(tn *sourcewalk.TopicNode) {
 		rpcDesc := &descriptorpb.MethodDescriptorProto{
 			Name:       gl.Ptr(method.Name),
 			OutputType: gl.Ptr(googleProtoEmptyType),
-			InputType:  gl.Ptr(method.Request),
+			// by its full name: resolved from inside the service, the bare
+			// name finds an rpc of that name first (message Ping next to
+			// message PingMessage)
+			InputType: gl.Ptr("." + ww.file.fdp.GetPackage() + "." + method.Request),
 		}
 		desc.Method = append(desc.Method, rpcDesc)
 	}
